@@ -439,8 +439,9 @@ def check(pid, tier='quick', base_seed=0, runs=None, wall_cap=None, corpus=True,
             cov['prelude_exhaustive'] = True
     ev = {'property_id': pid, 'tier': tier, 'seed': int(base_seed), 'level': mod.LEVEL, 'coverage': cov,
           'assumptions': getattr(mod, 'ASSUMPTIONS', []), 'wall_s': round(wall, 2), 'violations': len(viol_lines)}
-    os.makedirs(os.path.join(ROOT, 'evidence'), exist_ok=True)
-    with open(os.path.join(ROOT, 'evidence', pid + '.json'), 'w') as f:
+    evdir = os.path.join(ROOT, 'evidence') if os.path.realpath(REPO) == '/repo' else os.path.join(ROOT, '.scratch', 'evidence')
+    os.makedirs(evdir, exist_ok=True)
+    with open(os.path.join(evdir, pid + '.json'), 'w') as f:
         json.dump(ev, f, indent=1, sort_keys=True, default=str)
     print('%s: %d runs (%d executions, %d non-trivial, %d distinct) in %.1fs, %.0f runs/h, %.1f simulated s, violations=%d known=%d%s' % (
         pid, tot['n'], tot['execs'], tot['nontrivial'], distinct, wall, cov['runs_per_hour'], tot['sim_s'], len(viol_lines), len(known_lines),
